@@ -162,13 +162,17 @@ Fixpoint apply_all (exclude : bool) (st : ist) (outs : list mout) : result ist :
   end.
 
 (* [mem] = the FeatureDB object's in-memory counters, which merge() draws ids from *)
-Definition merge_all (exclude : bool) (st : ist) (mem : counters) : result (ist * counters) :=
+(* merge_all(merge_order, merge_criteria, featuretypes_groups=(None,)): one pass of merge() over the whole table in merge_order *)
+Definition default_merge_order : list okey := [KSeqid; KFtype; KStrand; KStart].
+Definition merge_all_with (order : list okey) (cs : crits) (exclude : bool) (st : ist) (mem : counters) : result (ist * counters) :=
   let orows := map (fun r => mkORow r [] [] 0) (s_rows st) in
-  let sorted := sort_rows (directed [KSeqid; KFtype; KStrand; KStart] false) orows in
+  let sorted := sort_rows (directed order false) orows in
   let ins := flat_map (fun o => match minput_of_row (o_row o) with Some i => [i] | None => [] end) sorted in
   if negb (Nat.eqb (length ins) (length sorted)) then Err EType     (* '.' coordinates: len()/comparisons fail *)
-  else let '(outs, mem') := merge default_criteria ins mem in
+  else let '(outs, mem') := merge cs ins mem in
        match apply_all exclude st outs with Ok st' => Ok (st', mem') | Err e => Err e end.
+Definition merge_all (exclude : bool) (st : ist) (mem : counters) : result (ist * counters) :=
+  merge_all_with default_merge_order default_criteria exclude st mem.
 
 (* ---- counting covered positions (C16_children_bp_union) ---- *)
 Fixpoint zrange (lo : Z) (n : nat) : list Z := match n with O => [] | S k => lo :: zrange (lo + 1) k end.
